@@ -36,8 +36,18 @@ func NewMux() (*Mux, error) {
 	return m, nil
 }
 
+// AfterCloseYield, when set by the simulator, runs after Close has told the serving
+// goroutine to stop: the real Close returns without waiting for it, so whether the caller
+// or that goroutine runs first is a scheduling choice, and this is where the simulator
+// makes it.
+var AfterCloseYield func()
+
 func (m *Mux) Close() {
-	m.once.Do(func() { close(m.done) })
+	first := false
+	m.once.Do(func() { close(m.done); first = true })
+	if first && AfterCloseYield != nil {
+		AfterCloseYield()
+	}
 }
 
 func (m *Mux) enqueue(c *Conn, b []byte) {
